@@ -143,3 +143,36 @@ def poly_of(e, opaque_calls=True) -> Poly:
 
 def poly_of_text(text: str) -> Poly:
     return poly_of(cparse.parse_expr(text))
+
+
+def eval_exact(e, env) -> Fraction:
+    """exact value of a cparse AST over the rationals: arithmetic, and the piecewise-linear functions (fmax, fmin, fabs) whose
+    value on rationals is rational; atoms are looked up in `env` by their canonical text"""
+    k = e[0]
+    if k == "num":
+        return num_value(e[1])
+    if k in ("id", "idx"):
+        return Fraction(env[atom_name(e)])
+    if k == "neg":
+        return -eval_exact(e[1], env)
+    if k == "pos":
+        return eval_exact(e[1], env)
+    if k == "call":
+        a = [eval_exact(x, env) for x in e[2]]
+        if e[1] in ("fmax", "max") and len(a) == 2:
+            return max(a)
+        if e[1] in ("fmin", "min") and len(a) == 2:
+            return min(a)
+        if e[1] in ("fabs", "abs") and len(a) == 1:
+            return abs(a[0])
+        raise cparse.CParseError(f"no exact value for the call {e[1]}(…)")
+    if k == "bin" and e[1] in "+-*/":
+        l, r = eval_exact(e[2], env), eval_exact(e[3], env)
+        if e[1] == "+":
+            return l + r
+        if e[1] == "-":
+            return l - r
+        if e[1] == "*":
+            return l * r
+        return l / r
+    raise cparse.CParseError(f"no exact value for {e}")
